@@ -169,6 +169,16 @@ func registerSyncStubs(w *World) {
 			return nil
 		}
 		ss := in.syncSt()
+		if xp, ok := x.V.(PtrV); ok && xp.R != nil {
+			for _, y := range ss.pools[st] {
+				if yp, ok := y.(IfaceV).V.(PtrV); ok && yp.R == xp.R {
+					// two later Gets (possibly on different goroutines) would receive the same object
+					if in.monitorOn {
+						in.Events = append(in.Events, Event{Kind: "sharedwrite", Msg: "object released to a sync.Pool twice: two later users share it", Where: in.where(), Stack: in.stackNames()})
+					}
+				}
+			}
+		}
 		// from now on the object belongs to whoever gets it next: a later store
 		// through a retained reference is a write to shared state
 		reOriginDeep(x, OrgCall, OrgPool, map[interface{}]bool{})
@@ -397,6 +407,48 @@ func registerSyncStubs(w *World) {
 		return nil
 	}
 
+	// ---- json.Encoder over an io.Writer: Marshal + newline, written with one Write ----
+	S["encoding/json.NewEncoder"] = func(in *Interp, fn *ssa.Function, a []Value) Value {
+		return PtrV{&Cell{V: &NativeV{Kind: "jsonenc", V: in.force(a[0])}, Org: in.org(), Nm: "json.Encoder"}}
+	}
+	for _, n := range []string{"SetEscapeHTML", "SetIndent"} {
+		S["(*encoding/json.Encoder)."+n] = func(in *Interp, fn *ssa.Function, a []Value) Value { return nil }
+	}
+	S["(*encoding/json.Encoder).Encode"] = func(in *Interp, fn *ssa.Function, a []Value) Value {
+		p, ok := a[0].(PtrV)
+		if !ok || p.R == nil {
+			in.goPanic("nil pointer dereference (json.Encoder)")
+		}
+		nv, ok := p.R.Load().(*NativeV)
+		if !ok || nv.Kind != "jsonenc" {
+			in.unsupported("json.Encoder not created by NewEncoder")
+		}
+		w := nv.V.(IfaceV)
+		res := in.W.Stubs["encoding/json.Marshal"](in, fn, []Value{a[1]}).(TupleV)
+		if e, _ := res[1].(IfaceV); e.T != nil {
+			return res[1]
+		}
+		sl := res[0].(SliceV)
+		if sl.Arr != nil && sl.Arr.Abs != nil {
+			in.unsupported("json.Encoder.Encode of symbolic content")
+		}
+		bt := types.NewSlice(types.Typ[types.Uint8])
+		out := in.appendOp(SliceV{}, sl, bt).(SliceV)
+		out = in.appendOp(out, SliceV{Arr: &ArrayV{Elems: []Value{IntC('\n')}}, Len: 1, Cap: 1}, bt).(SliceV)
+		if w.T == nil {
+			in.goPanic("nil io.Writer")
+		}
+		m := in.findMethod(w.T, "Write")
+		if m == nil {
+			in.unsupported("json.Encoder: writer without Write method")
+		}
+		r := in.CallFunction(m, []Value{copyValue(w.V), out}, nil)
+		if tv, ok := r.(TupleV); ok && len(tv) == 2 {
+			return tv[1]
+		}
+		return NilIface
+	}
+
 	S["reflect.DeepEqual"] = func(in *Interp, fn *ssa.Function, a []Value) Value {
 		return in.deepEqual(a[0], a[1], 0)
 	}
@@ -514,6 +566,13 @@ func registerSyncStubs(w *World) {
 	}
 	S["(*bytes.Buffer).Len"] = func(in *Interp, fn *ssa.Function, a []Value) Value {
 		return IntC(int64(len(in.syncSt().bufs[bufOf(in, a[0])])))
+	}
+	S["(*bytes.Buffer).Cap"] = func(in *Interp, fn *ssa.Function, a []Value) Value {
+		n := len(in.syncSt().bufs[bufOf(in, a[0])])
+		if n < 64 {
+			n = 64
+		}
+		return IntC(int64(n))
 	}
 	S["(*bytes.Buffer).Reset"] = func(in *Interp, fn *ssa.Function, a []Value) Value {
 		st := bufOf(in, a[0])
